@@ -184,6 +184,8 @@ class ApiGen:
             s.op("vnadata_get_fmax", v)
             s.op("vnadata_get_frequency_vector", v)
             s.op("vnadata_set_frequency_vector", v, "auto")
+            if r.random() < 0.3:
+                s.op("vnadata_set_frequency_vector_own", v)
         elif k < 10:
             fi, row, col = self.idx(m["F"]), self.idx(m["r"]), self.idx(m["c"])
             ln = s.op("vnadata_set_cell", v, fi, row, col, cx(self.cval()))
@@ -222,6 +224,12 @@ class ApiGen:
             if r.random() < 0.3:
                 s.op("vnadata_get_z0_vector", v)
                 s.op("vnadata_set_z0_vector", v, "auto")
+            if r.random() < 0.3 and m["F"] > 0:
+                # impedances copied within the object through the pointer
+                # its own getter returned
+                s.op("vnadata_set_z0_vector_own", v,
+                     str(r.choice(["f", "f", "z"])),
+                     int(r.integers(0, m["F"])))
         elif k < 19:
             ports = max(m["r"], m["c"])
             fi, port = self.idx(m["F"]), self.idx(ports)
@@ -240,6 +248,11 @@ class ApiGen:
                 ln = s.op("vnadata_set_fz0_vector", v, fi, "auto")
                 if fi < 0:
                     self.expect_fail(ln, FAIL_INT, "negative index")
+            if r.random() < 0.4 and m["F"] > 0:
+                s.op("vnadata_set_fz0_vector_own", v,
+                     int(r.integers(0, m["F"])),
+                     str(r.choice(["f", "f", "z"])),
+                     int(r.integers(0, m["F"])))
         elif k < 22:
             other = str(r.choice(list(self.vds)))
             t = int(r.integers(0, 12))
